@@ -188,7 +188,7 @@ def _noisy_frame(rng, addr):
     return R.frame_with_parity(head + mb, int(addr, 16))
 
 
-def gen_world(rw, rf, T, budget, base=None, tmode=None, n_clean=None, outage=False):
+def gen_world(rw, rf, T, budget, base=None, tmode=None, n_clean=None, outage=False, steady=False):
     """World + channel: returns dict(base, tmode, receiver, aircraft, noisy,
     msgs) with msgs = sorted [(t_rel, seq, 'a'|'c', hex, addr)]."""
     if base is None:
@@ -198,7 +198,7 @@ def gen_world(rw, rf, T, budget, base=None, tmode=None, n_clean=None, outage=Fal
     if n_clean is None:
         n_clean = rw.choice([1, 1, 2, 2, 3, 4, 6])
     used = set()
-    acs = [_gen_aircraft(rw, i, T, used, fast=outage and rw.random() < 0.85) for i in range(n_clean)]
+    acs = [_gen_aircraft(rw, i, T, used, fast=(outage or steady) and rw.random() < 0.85) for i in range(n_clean)]
     # receiver: near a ground-capable aircraft (within ~0.3 deg), placed on
     # either side of equator / antimeridian / Greenwich when the start is there
     rcv = None
@@ -260,19 +260,26 @@ def gen_world(rw, rf, T, budget, base=None, tmode=None, n_clean=None, outage=Fal
         style = rw.choice(["fast", "fast", "medium", "sparse", "parity_runs"])
         if outage:
             style = "outage"   # every 3-9 s: never silent long enough to be evicted
-        p_loss = rf.choice([0.0, 0.0, 0.1, 0.3, 0.6]) if not outage else rf.choice([0.0, 0.1])
+        if steady:
+            style = "steady"   # every 1.5-4.5 s for half an hour: hundreds of position reports, continuous track
+        p_loss = rf.choice([0.0, 0.0, 0.1, 0.3, 0.6]) if not (outage or steady) else rf.choice([0.0, 0.1])
         p_dup = rf.choice([0.0, 0.0, 0.05, 0.2])
         gaps = []
-        for _ in range(rf.choice([0, 0, 1, 2, 3]) if not outage else 0):
+        for _ in range(rf.choice([0, 0, 1, 2, 3]) if not (outage or steady) else 0):
             g0 = rf.uniform(0, T)
             gaps.append((g0, g0 + rf.choice(GAPS)))
         # position-only outage: the position squitters are lost for a long time
         # while other messages keep the aircraft listed
+        par_out = None
+        if steady and rf.random() < 0.6:
+            # one parity of the position squitters is lost for a couple of minutes
+            p0 = rf.uniform(60, T * 0.8)
+            par_out = (p0, p0 + rf.choice([30, 120, 300]), rf.choice([0, 1]))
         pos_out = None
-        if outage or rf.random() < 0.1:
+        if (outage or rf.random() < 0.1) and not steady:
             o0 = rf.uniform(0, T * 0.4) if not outage else rf.uniform(20, 250)
             pos_out = (o0, o0 + (rf.choice([150, 179, 181, 200, 400]) if not outage else rf.choice([1150, 1300, 1300, 1500])))
-        a["faults"] = {"p_loss": p_loss, "p_dup": p_dup, "gaps": gaps, "style": style, "pos_outage": pos_out}
+        a["faults"] = {"p_loss": p_loss, "p_dup": p_dup, "gaps": gaps, "style": style, "pos_outage": pos_out, "parity_outage": par_out}
         ver = rw.choice([0, 1, 2, 2, None])
         t = rw.uniform(0, min(30, T / 3))
         odd = rw.random() < 0.5
@@ -306,6 +313,9 @@ def gen_world(rw, rf, T, budget, base=None, tmode=None, n_clean=None, outage=Fal
             if pos_out is not None and is_pos and pos_out[0] <= tq < pos_out[1]:
                 a.setdefault("n_posout", 0)
                 a["n_posout"] += 1
+            elif par_out is not None and is_pos and par_out[0] <= tq < par_out[1] and ((int(hexm[13], 16) >> 2) & 1) == par_out[2]:
+                a.setdefault("n_parout", 0)
+                a["n_parout"] += 1
             elif in_gap:
                 a.setdefault("n_gap", 0)
                 a["n_gap"] += 1
@@ -326,6 +336,8 @@ def gen_world(rw, rf, T, budget, base=None, tmode=None, n_clean=None, outage=Fal
                 t += rw.choice([2, 5, 8, 9.8, 10.2, 15, 40, 70])
             elif style == "outage":
                 t += rw.uniform(3.0, 9.0)
+            elif style == "steady":
+                t += rw.uniform(1.5, 4.5)
             else:
                 t += rw.uniform(0.3, 3.0)
     # noisy identities and Comm-B replies for unknown addresses
@@ -357,9 +369,13 @@ def generate(run_seed, tier):
     if outage:
         T = 1800
     soak = tier != "quick" and not outage and rw.random() < 0.02   # hours of steady traffic, thousands of messages
+    steady = not outage and not soak and rw.random() < 0.04       # half an hour of continuous tracking
     if soak:
         T = rw.choice([3600, 7200])
-        wd = gen_world(rw, rf, T, 12000, n_clean=rw.choice([1, 2]))
+        wd = gen_world(rw, rf, T, 12000, n_clean=rw.choice([1, 2]), steady=True)
+    elif steady:
+        T = 1800
+        wd = gen_world(rw, rf, T, 1500, n_clean=1, steady=True)
     else:
         wd = gen_world(rw, rf, T, 1500 if tier != "quick" else 700, outage=outage, n_clean=rw.choice([1, 1, 2]) if outage else None)
     base, tmode, rcv, acs, noisy, msgs = wd["base"], wd["tmode"], wd["receiver"], wd["aircraft"], wd["noisy"], wd["msgs"]
@@ -520,6 +536,9 @@ def execute(sc, keep_log=False):
         stats.c["fault.duplicate"] += a.get("n_dup", 0)
         stats.c["fault.silence_gap_msgs"] += a.get("n_gap", 0)
         stats.c["fault.position_only_outage_msgs"] += a.get("n_posout", 0)
+        stats.c["fault.one_parity_outage_msgs"] += a.get("n_parout", 0)
+        if (a.get("faults") or {}).get("style") == "steady":
+            stats.c["probe.half_hour_continuous_track"] += 1
         if a.get("n_lost") or a.get("n_dup") or a.get("n_gap"):
             nontrivial = True
         stats.c["probe.start_" + a.get("start_kind", "?")] += 1
